@@ -157,6 +157,8 @@ def impl(op, a):
         return _tlv_view(CfdpTlv.unpack(bytes(a[0])))
     if op == 1005:
         return [[int(_gtlv(a, 0) == _gtlv(a, 2))]]
+    if op == 1006:
+        _gtlv(a).check_type(_enum(TlvType, a[2][0])); return [[0]]
     if op == 1010:
         return _wrap_view(EntityIdTlv(bytes(a[0])))
     if op == 1011:
@@ -358,6 +360,7 @@ def streams(tier, rng):
     for t1, t2 in itertools.product(TLV_TYPES + [7], repeat=2):
         v = rbytes(rng, 3)
         cases.append((1005, [[t1], v, [t2], v])); cases.append((1005, [[t1], v, [t2], v[:-1] + [v[-1] ^ 1]]))
+        cases.append((1006, [[t1], v, [t2]]))
     yield "exh_tlv_type_len", "exact", cases
     # 3. all 256 values of the action/status octet through the filestore decoders; status helpers
     cases = []
@@ -529,7 +532,7 @@ def oracle_spec(case, ires):
         return [(1052, [a[0]])]
     if op == 1023 and a[0][0] in ACTIONS:
         return [(1053, [a[0], a[1], a[2]])]
-    if op == 1026 and a[0][0] in ACTIONS and a[0][1] >= 0 and a[0][1] >> 4 == a[0][0]:
+    if op == 1026 and a[0][0] in ACTIONS and a[0][1] >= 0 and a[0][1] >> 4 == a[0][0] and a[0][1] in STATUS:
         return [(1054, [[a[0][0], a[0][1] & 15], a[1], a[2], a[3]])]
     return []
 
@@ -611,6 +614,10 @@ def oracle(case, ires, sres):
         if not _doc(ires):
             return ("C08/CfdpTlv.unpack/undocumented-exception", "%s -> error class %d" % (d[:8], code))
         return None
+    if op == 1006:
+        if len(a[1]) <= 255 and (err != (a[0] != a[2]) or (err and code != 6)):
+            return ("C08/AbstractTlvBase.check_type", "%s vs %s -> %s" % (a[0], a[2], ires))
+        return None
     if op == 1005:
         exp = int(a[0] == a[2] and a[1] == a[3])
         if len(a[1]) <= 255 and len(a[3]) <= 255 and (err or ires[1] != [exp]):
@@ -632,7 +639,7 @@ def oracle(case, ires, sres):
             t, layout = 0, (tlv_bytes(0, val) if len(val) <= 255 and len(a[1]) <= 255 and len(a[2]) <= 255 else None)
         else:
             ac, st = a[0]
-            inrange = ac in ACTIONS and st >= 0 and st >> 4 == ac
+            inrange = ac in ACTIONS and st >= 0 and st >> 4 == ac and st in STATUS
             val = fs_value(ac, st & 15, a[1], a[2], a[3]) if inrange else []
             t, layout = 1, (tlv_bytes(1, val) if len(val) <= 255 and len(a[1]) <= 255 and len(a[2]) <= 255 else None)
         if not inrange:
@@ -682,6 +689,8 @@ def oracle(case, ires, sres):
             wellformed = len(v) <= 255 and (t in TLV_TYPES)
             if len(v) > 255 or (mode == 2 and t not in TLV_TYPES):
                 return None
+            if mode == 2 and _expect_fields(UNPACK_OP[t], t, v) is None:
+                return None      # the held concrete object cannot be built in the first place
         if err and not (_doc(ires) or (mode == 2 and code == 20)):
             return ("C08/%s/undocumented-exception" % name, "%s -> error class %d" % ([x[:10] for x in a], code))
         if not wellformed:
@@ -695,8 +704,6 @@ def oracle(case, ires, sres):
                 return ("C08/%s/foreign-type-wrong-error" % name, "TLV of type %d: error class %d instead of TlvTypeMissmatch" % (t, code))
             return None
         exp = _expect_fields(op, t, v)
-        if mode == 2 and exp is None:
-            return None          # the concrete object could not be built in the first place
         if exp is None:
             if not err:
                 return ("C08/%s/malformed-accepted" % name, "%s -> %s" % ([x[:12] for x in a], ires[:4]))
